@@ -4,6 +4,7 @@ package main
 
 import (
 	"fmt"
+	"go/token"
 	"go/types"
 	"sort"
 	"strconv"
@@ -635,6 +636,37 @@ func (c *Ctx) flagMeansCodeOnLine(v ssa.Value, fn *ssa.Function, isLineOfComment
 		if !(sameLine && before) {
 			return false
 		}
+		// the search visits the whole enclosing declaration (receiver, signature, body): the walk that sets the
+		// flag starts at an element of file.Decls, not at a part of it
+		if wf := st.Parent(); wf != fn && wf.Parent() != nil {
+			mc := P.closureSite(wf)
+			if mc == nil {
+				return false
+			}
+			call, ai := closurePassedTo(mc)
+			if call == nil {
+				return false
+			}
+			switch P.calleeName(call.Common()) {
+			case "go/ast.Inspect":
+				root := call.Common().Args[1-ai]
+				whole := P.RootsAllDeep(root, func(r ssa.Value) bool {
+					u, ok := r.(*ssa.UnOp)
+					if !ok {
+						return false
+					}
+					ia, ok := u.X.(*ssa.IndexAddr)
+					return ok && P.RootsAllDeep(ia.X, func(q ssa.Value) bool { return fieldLoad(q, "go/ast.File", "Decls") != nil })
+				})
+				if !whole && !c.once("walk-root "+FuncName(wf)) {
+					return false
+				}
+				if !whole {
+					c.fail("SCOPE/INLINE-WALK-ROOT", FuncName(wf), P.Pos(call.Pos()), "the search for code on the comment's line does not start at the enclosing top-level declaration ("+short(P.DescDeep(root))+"): nodes outside the walked part (receiver, parameters, results) are not seen and a comment trailing them is treated as stand-alone")
+					return false
+				}
+			}
+		}
 		sawTrue = true
 	}
 	return sawTrue
@@ -773,6 +805,47 @@ func (c *Ctx) ruleReportGate(onlyPkgs ...string) {
 		}
 		c.check(okP, "REPORT-GATE/GETPOS", tn, "", "GetPos returns the Pos field", "GetPos() does not return the violation's own Pos field")
 	}
+	// the code and the position a violation was created (and, for detection-time gates, looked up) with are the
+	// ones it is displayed with: they are written by the report site's composite literal only
+	siteAllocs := map[*ssa.Alloc]bool{}
+	for _, s := range c.M.Sites {
+		siteAllocs[s.Alloc] = true
+	}
+	vtOf := map[*types.Named]*ViolationType{}
+	for _, vt := range c.M.VTypes {
+		vtOf[vt.Named] = vt
+	}
+	nFieldStores := 0
+	for _, fn := range P.ModFuncs {
+		allInstrs(fn, func(b *ssa.BasicBlock, ins ssa.Instruction) {
+			st, ok := ins.(*ssa.Store)
+			if !ok {
+				return
+			}
+			fa, ok := st.Addr.(*ssa.FieldAddr)
+			if !ok {
+				return
+			}
+			n, _ := deref(fa.X.Type()).(*types.Named)
+			vt := vtOf[n]
+			if vt == nil || !wantPkg(vt.Pkg) {
+				return
+			}
+			fname := n.Underlying().(*types.Struct).Field(fa.Field).Name()
+			if fname != "Pos" && fname != "Code" {
+				return
+			}
+			nFieldStores++
+			if a, ok := fa.X.(*ssa.Alloc); ok && siteAllocs[a] {
+				return
+			}
+			c.fail("REPORT-GATE/POS-STABLE", FuncName(fn)+"#"+vt.Pkg+"."+n.Obj().Name()+"."+fname, P.Pos(st.Pos()),
+				"the "+fname+" of a violation is re-assigned after the report site created it ("+short(P.Desc(st.Val))+"): what is displayed differs from what the site decided on and looked up in the ignore set, so `// @ignore CODE` on the displayed line may not remove it")
+		})
+	}
+	if len(onlyPkgs) == 0 {
+		c.floor("stores to Pos/Code fields of violation types", nFieldStores, 20)
+	}
 	// NewReporter: the ignore set of the pass, or nil (then the package gates at detection time: GUARD-SIG)
 	nNR := 0
 	for _, fn := range P.ModFuncs {
@@ -826,30 +899,116 @@ func (c *Ctx) checkFormat(fn *ssa.Function) bool {
 		return false
 	}
 	vD := P.Desc(fn.Params[1])
+	// the text written to the message builder, in source order, with the helpers that receive the builder read
+	// in the context of their call: (block of the formatter the write belongs to, descriptor of the text)
 	type ws struct {
-		pos  int
+		root *ssa.BasicBlock
 		desc string
 	}
 	var seq []ws
+	isBuilder := func(v ssa.Value) bool { return typeStr(deref(v.Type())) == "strings.Builder" }
+	var collect func(f *ssa.Function, pins pinMap, root *ssa.BasicBlock, depth int)
+	collect = func(f *ssa.Function, pins pinMap, root *ssa.BasicBlock, depth int) {
+		type item struct {
+			pos  token.Pos
+			b    *ssa.BasicBlock
+			call *ssa.Call
+		}
+		var items []item
+		allInstrs(f, func(b *ssa.BasicBlock, ins ssa.Instruction) {
+			if call, ok := ins.(*ssa.Call); ok {
+				items = append(items, item{call.Pos(), b, call})
+			}
+		})
+		sort.SliceStable(items, func(i, j int) bool { return items[i].pos < items[j].pos })
+		for _, it := range items {
+			rb := root
+			if rb == nil {
+				rb = it.b
+			} else if it.b != f.Blocks[0] {
+				continue // conditional writes of a helper are not part of the fixed text
+			}
+			if P.CallTo(it.call, "(*strings.Builder).WriteString") != nil {
+				// a + b + c written at once is a, b, c written in turn
+				var parts []ssa.Value
+				var flat func(v ssa.Value)
+				flat = func(v ssa.Value) {
+					if bo, ok := v.(*ssa.BinOp); ok && bo.Op == token.ADD {
+						flat(bo.X)
+						flat(bo.Y)
+						return
+					}
+					parts = append(parts, v)
+				}
+				flat(it.call.Call.Args[1])
+				for _, pv := range parts {
+					var d string
+					P.PinnedAll(pins, func() { d = P.Desc(pv) })
+					seq = append(seq, ws{rb, d})
+				}
+				continue
+			}
+			callee := it.call.Call.StaticCallee()
+			if callee == nil || !P.IsProductFunc(callee) || len(callee.Blocks) == 0 || depth >= 3 || pins[callee] != nil {
+				continue
+			}
+			passes := false
+			for _, a := range it.call.Call.Args {
+				if isBuilder(a) {
+					passes = true
+				}
+			}
+			if !passes {
+				continue
+			}
+			np := pinMap{callee: it.call}
+			for k, v := range pins {
+				np[k] = v
+			}
+			collect(callee, np, rb, depth+1)
+		}
+	}
+	collect(fn, nil, nil, 0)
 	okURL := false
-	allInstrs(fn, func(b *ssa.BasicBlock, ins ssa.Instruction) {
-		call, ok := ins.(*ssa.Call)
-		if !ok || P.CallTo(call, "(*strings.Builder).WriteString") == nil {
-			return
-		}
-		d := P.Desc(call.Call.Args[1])
-		if b == fn.Blocks[0] {
-			seq = append(seq, ws{int(call.Pos()), d})
-		}
-		if strings.HasPrefix(d, "call(codes.GetDocumentationURL; call(invoke reporting.Violation.GetCode; "+vD) {
+	var urlBlocks []*ssa.BasicBlock
+	for _, w := range seq {
+		if strings.HasPrefix(w.desc, "call(codes.GetDocumentationURL; call(invoke reporting.Violation.GetCode; "+vD) {
 			okURL = true
+			urlBlocks = append(urlBlocks, w.root)
 		}
-	})
-	sort.Slice(seq, func(i, j int) bool { return seq[i].pos < seq[j].pos })
+	}
+	// "every diagnostic links to the documentation page": the help line is written on every path to a return,
+	// whether or not a source excerpt could be read
+	if okURL && c.Prop == "C17" && !c.helpChecked[fn] {
+		if c.helpChecked == nil {
+			c.helpChecked = map[*ssa.Function]bool{}
+		}
+		c.helpChecked[fn] = true
+		always := true
+		allInstrs(fn, func(b *ssa.BasicBlock, ins ssa.Instruction) {
+			if _, isRet := ins.(*ssa.Return); !isRet {
+				return
+			}
+			dom := false
+			for _, ub := range urlBlocks {
+				if dominates(ub, b) {
+					dom = true
+				}
+			}
+			if !dom {
+				always = false
+			}
+		})
+		c.check(always, "REPORT-GATE/HELP-ALWAYS", FuncName(fn), P.Pos(fn.Pos()), "the documentation link is written on every path of the message formatter",
+			"the documentation link is written only on some paths of the formatter (e.g. only when the source excerpt could be read): a diagnostic whose position was remapped by a //line directive, or whose file cannot be read, carries no link")
+	}
 	// the text written unconditionally, with the two accessors as placeholders: it must contain
 	// "[" <code> "] " <message> however the constant pieces are split over WriteString calls
 	var tmpl strings.Builder
 	for _, w := range seq {
+		if w.root != fn.Blocks[0] {
+			continue
+		}
 		switch {
 		case w.desc == "call(invoke reporting.Violation.GetCode; "+vD+")":
 			tmpl.WriteString("\x00CODE\x00")
